@@ -1,0 +1,91 @@
+//go:build verif
+
+// Contracts for package pass1, read by /verif/govc (see internal/codegen/verif_contracts.go
+// for the conventions). Nothing here is part of a normal build.
+
+package pass1
+
+import (
+	"github.com/HobbyOSs/gosk/internal/ast"
+	"github.com/HobbyOSs/gosk/pkg/cpu"
+)
+
+func forall(lo, hi int, p func(k int) bool) bool {
+	for k := lo; k < hi; k++ {
+		if !p(k) {
+			return false
+		}
+	}
+	return true
+}
+
+func old[T any](x T) T { return x }
+
+// specIsNumber: the operand has been reduced to a numeric constant by evaluation.
+func specIsNumber(e ast.Exp) bool {
+	_, ok := e.(*ast.NumberExp)
+	return ok
+}
+
+// specNumber: the value of a numeric constant operand (0 if it is not one).
+func specNumber(e ast.Exp) int64 {
+	n, ok := e.(*ast.NumberExp)
+	if !ok {
+		return 0
+	}
+	return n.Value
+}
+
+func specMode(m cpu.BitMode) int { return int(m) }
+
+//@ func processORG
+//@ props C16 C05 C03
+//@ requires env != nil
+//@ ensures[set]  len(operands) == 1 && specIsNumber(operands[0]) ==> env.LOC == int32(specNumber(operands[0])) && env.DollarPosition == old(env.DollarPosition)+uint32(specNumber(operands[0]))
+//@ ensures[first@C16] len(operands) == 1 && specIsNumber(operands[0]) && old(env.DollarPosition) == 0 && 0 <= specNumber(operands[0]) && specNumber(operands[0]) <= 0x7fffffff ==> int64(env.LOC) == specNumber(operands[0]) && int64(env.DollarPosition) == specNumber(operands[0])
+//@ ensures[else] !(len(operands) == 1 && specIsNumber(operands[0])) ==> env.LOC == old(env.LOC) && env.DollarPosition == old(env.DollarPosition)
+//@ assigns Pass1.LOC, Pass1.DollarPosition
+
+//@ func processRESB
+//@ props C05 C03
+//@ requires env != nil && env.Client != nil
+//@ ensures[loc]  len(operands) == 1 && specIsNumber(operands[0]) && 0 <= specNumber(operands[0]) && specNumber(operands[0]) <= 0x7fffffff ==> int64(env.LOC) == int64(old(env.LOC))+specNumber(operands[0]) || int64(env.LOC) == int64(old(env.LOC))+specNumber(operands[0])-0x100000000
+//@ ensures[else] !(len(operands) == 1 && specIsNumber(operands[0]) && 0 <= specNumber(operands[0])) ==> env.LOC == old(env.LOC)
+//@ assigns Pass1.LOC, ocodeClient.Ocodes
+
+// specPow2A: n is a power of two 2^k with 0 <= k < 8 (written out so that the
+// solver splits on the constant divisor; codegen rejects units that are not powers of two).
+func specPow2A(n int32) bool {
+	return n == 1<<0 || n == 1<<1 || n == 1<<2 || n == 1<<3 || n == 1<<4 || n == 1<<5 || n == 1<<6 || n == 1<<7
+}
+
+// specPow2B: n is a power of two 2^k with 8 <= k < 16 (written out so that the
+// solver splits on the constant divisor; codegen rejects units that are not powers of two).
+func specPow2B(n int32) bool {
+	return n == 1<<8 || n == 1<<9 || n == 1<<10 || n == 1<<11 || n == 1<<12 || n == 1<<13 || n == 1<<14 || n == 1<<15
+}
+
+// specPow2C: n is a power of two 2^k with 16 <= k < 24 (written out so that the
+// solver splits on the constant divisor; codegen rejects units that are not powers of two).
+func specPow2C(n int32) bool {
+	return n == 1<<16 || n == 1<<17 || n == 1<<18 || n == 1<<19 || n == 1<<20 || n == 1<<21 || n == 1<<22 || n == 1<<23
+}
+
+// specPow2D: n is a power of two 2^k with 24 <= k < 31 (written out so that the
+// solver splits on the constant divisor; codegen rejects units that are not powers of two).
+func specPow2D(n int32) bool {
+	return n == 1<<24 || n == 1<<25 || n == 1<<26 || n == 1<<27 || n == 1<<28 || n == 1<<29 || n == 1<<30
+}
+
+//@ func processALIGNB
+//@ props C05 C03
+//@ requires env != nil && env.Client != nil && env.LOC >= 0
+//@ ensures[pad.a] len(operands) == 1 && specIsNumber(operands[0]) && specPow2A(int32(specNumber(operands[0]))) && int64(old(env.LOC))+int64(int32(specNumber(operands[0]))) <= 0x7fffffff ==> env.LOC >= old(env.LOC) && env.LOC-old(env.LOC) < int32(specNumber(operands[0])) && env.LOC%int32(specNumber(operands[0])) == 0
+//@ ensures[pad.b] len(operands) == 1 && specIsNumber(operands[0]) && specPow2B(int32(specNumber(operands[0]))) && int64(old(env.LOC))+int64(int32(specNumber(operands[0]))) <= 0x7fffffff ==> env.LOC >= old(env.LOC) && env.LOC-old(env.LOC) < int32(specNumber(operands[0])) && env.LOC%int32(specNumber(operands[0])) == 0
+//@ ensures[pad.c] len(operands) == 1 && specIsNumber(operands[0]) && specPow2C(int32(specNumber(operands[0]))) && int64(old(env.LOC))+int64(int32(specNumber(operands[0]))) <= 0x7fffffff ==> env.LOC >= old(env.LOC) && env.LOC-old(env.LOC) < int32(specNumber(operands[0])) && env.LOC%int32(specNumber(operands[0])) == 0
+//@ ensures[pad.d] len(operands) == 1 && specIsNumber(operands[0]) && specPow2D(int32(specNumber(operands[0]))) && int64(old(env.LOC))+int64(int32(specNumber(operands[0]))) <= 0x7fffffff ==> env.LOC >= old(env.LOC) && env.LOC-old(env.LOC) < int32(specNumber(operands[0])) && env.LOC%int32(specNumber(operands[0])) == 0
+//@ assigns Pass1.LOC, ocodeClient.Ocodes
+
+//@ func estimateJumpSize
+//@ props C03 C04
+//@ ensures[dom] result0 == 2 || result0 == 3 || result0 == 5 || result0 == 6
